@@ -112,8 +112,32 @@ pub fn oracle(c: &PuCtx, rec: &mut Rec) {
             let (Some(pre), Some(post)) = (c.pre.pool(pool), c.post.pool(pool)) else { return };
             check_swap_edge(&pre.pool_info, &post.pool_info, &offer[0].0, offer[0].1, ask, gross_of(c.out), rec);
         }
-        PuOp::Route { u, hops, amt, slip, .. } => {
+        PuOp::Route { u, hops, amt, slip, recv, .. } => {
             rec.validated += 1;
+            // a route that stays inside ONE pool and ends in the denom it started from is a swap sequence of its own: it must not
+            // leave the trader ahead (beyond the dust of the trader-favouring roundings of KF-P6: two units per hop). Routes over
+            // several pools may legitimately profit from pools priced differently and are not judged this way.
+            if c.out.is_ok() && hops[0].0 == hops.last().unwrap().1 && hops.iter().all(|h| h.2 == hops[0].2) {
+                let r = recv.unwrap_or(*u);
+                let got = c.delta(r, &hops[0].0) + if r == *u { *amt as i128 } else { 0 };
+                rec.count("c03_round_trip_routes");
+                if got > *amt as i128 + 2 * hops.len() as i128 {
+                    rec.viol("C03_profitable_route", format!("{:?}: {amt} in, {got} of the same denom out", c.op));
+                }
+            }
+            // the route's own effect on every stableswap pool it touched: the exact invariant must not collapse (a fall beyond
+            // 0.001 % is far outside the rounding envelope of KF-P6, which the hop-by-hop re-execution below judges exactly)
+            if c.out.is_ok() {
+                for (_, _, pid) in hops.iter() {
+                    if let (Some(p0), Some(p1)) = (c.pre.pool(pid), c.post.pool(pid)) {
+                        if let (Some(d0), Some(d1)) = (d_exact_k(&p0.pool_info), d_exact_k(&p1.pool_info)) {
+                            if &d1 * BigInt::from(100_000) < &d0 * BigInt::from(99_999) {
+                                rec.viol("C03_route_reduced_pool_value", format!("stableswap pool {pid}: exact D {d0} -> {d1} through {:?}", c.op));
+                            }
+                        }
+                    }
+                }
+            }
             // the route's own effect on every constant-product pool it touched (a pool visited twice must still not lose value)
             for (_, _, pid) in hops.iter() {
                 if let (Some(p0), Some(p1)) = (c.pre.pool(pid), c.post.pool(pid)) {
